@@ -4,7 +4,7 @@
    byte-based Go functions work on [utf8 s].  [fits t] (length below 2^62) holds of every Go slice. *)
 From Coq Require Import List NArith ZArith Bool.
 Import ListNotations.
-From GMS Require Import Sys.C34Funcs Sys.C34FuncsProofs.
+From GMS Require Import Sys.C34Funcs Sys.C34FuncsProofs Sys.C34InverseProofs.
 Open Scope Z_scope.
 
 (* CHAR_LENGTH (and LENGTH) of a concatenation is the sum of the lengths *)
@@ -206,6 +206,39 @@ Print Assumptions C34_ceil_beyond_bigint_refuted.
 Theorem C34_inet_ntoa_injective_refuted : inet_ntoa (Some 3232235777) = inet_ntoa (Some 2147483647).
 Proof. exact inet_ntoa_saturates. Qed.
 Print Assumptions C34_inet_ntoa_injective_refuted.
+
+(* FROM_BASE64 inverts TO_BASE64 on every byte string, including the 76-column line wrapping *)
+Theorem C34_from_to_base64 : forall bs, is_bytes bs -> from_base64_bytes (to_base64_bytes bs) = Some bs.
+Proof. exact from_to_base64. Qed.
+Print Assumptions C34_from_to_base64.
+
+(* CONV between any two bases 2..36 is exact on every 64-bit number, hence CONV(CONV(n,a,b),b,a) = n *)
+Theorem C34_conv_correct : forall a b n, 2 <= a <= 36 -> 2 <= b <= 36 -> 0 <= n < 2 ^ 64 ->
+  conv (Some (fmt_uint a n)) (Some a) (Some b) = Val (fmt_uint b n).
+Proof. exact conv_correct. Qed.
+Print Assumptions C34_conv_correct.
+
+Theorem C34_conv_roundtrip : forall a b n, 2 <= a <= 36 -> 2 <= b <= 36 -> 0 <= n < 2 ^ 64 ->
+  exists x, conv (Some (fmt_uint a n)) (Some a) (Some b) = Val x /\
+            conv (Some x) (Some b) (Some a) = Val (fmt_uint a n).
+Proof. exact conv_roundtrip. Qed.
+Print Assumptions C34_conv_roundtrip.
+
+(* INET_ATON reads every dotted quad (all 2^32 addresses); with INET_NTOA it forms an inverse pair in both
+   directions below 2^31, the guard that excludes the saturation finding *)
+Theorem C34_inet_aton_dotted : forall u, 0 <= u < 2 ^ 32 -> inet_aton_str (dotted u) = Some u.
+Proof. exact inet_aton_dotted. Qed.
+Print Assumptions C34_inet_aton_dotted.
+
+Theorem C34_inet_aton_ntoa : forall n, 0 <= n < 2 ^ 31 ->
+  exists s, inet_ntoa (Some n) = Val s /\ inet_aton (Some s) = Val n.
+Proof. exact inet_roundtrip. Qed.
+Print Assumptions C34_inet_aton_ntoa.
+
+Theorem C34_inet_ntoa_aton : forall u, 0 <= u < 2 ^ 31 ->
+  exists n, inet_aton (Some (dotted u)) = Val n /\ inet_ntoa (Some n) = Val (dotted u).
+Proof. exact inet_ntoa_aton. Qed.
+Print Assumptions C34_inet_ntoa_aton.
 
 (* non-vacuity: concrete calls *)
 Example C34_nonvacuous :
